@@ -55,7 +55,7 @@ ASSUMPTIONS = ['str.replace with a one-character pattern replaces every occurren
 EXPLANATION = ('escaping proved for all strings, skeleton proved for all messages per generated template; implementation driven '
                'through functions, handler classes and the whole WSGI app with hostile inputs')
 
-XML_ILLEGAL = 'xml-illegal-character'   # known finding signature (see known_findings.d/C18.json)
+XML_ILLEGAL = 'xml-illegal-character'   # was known finding C18-a; repaired (render methods sanitise the message)
 
 HERE = os.path.dirname(os.path.abspath(__file__))
 VERIF = os.path.dirname(os.path.dirname(HERE))
@@ -320,7 +320,7 @@ def part_handlers(ctx, table, codes, locs):
                 tok_descr.append({'document': cps(doc), 'python_tokens': [(k, cps(t)) for k, t in toks]})
     ctx.corr_check(
         'handler', 'Escape Gen_exc_templates', 'list piece * list Z * option (list Z) * option (list Z) * list Z', terms,
-        "fun c => let '(t, msg, code, loc, doc) := c in str_eqb (gen_exception_doc t msg code loc) doc",
+        "fun c => let '(t, msg, code, loc, doc) := c in str_eqb (exception_doc t msg code loc) doc",
         lambda i: descr[i], shard=150)
     ctx.corr_check(
         'tokens', 'Escape', 'list Z * list (Z * list Z)', tok_terms,
@@ -734,7 +734,6 @@ def requested_size(name, path, pairs):
 
 
 HOST_HEADERS = ('HTTP_HOST', 'HTTP_X_FORWARDED_HOST', 'HTTP_X_FORWARDED_PROTO')
-HOST_MARKUP = 'capabilities,host-header-markup'      # known finding signature (see known_findings.d/C18.json)
 
 
 def xml_document_problem(body, text):
@@ -753,7 +752,6 @@ def xml_document_problem(body, text):
     return None
 
 
-INIMAGE_CT = 'inimage,content-type-from-request'        # known finding signature (see known_findings.d/C18.json)
 VALID_IMAGE_TYPES = ('image/png', 'image/jpeg', 'image/gif', 'image/tiff', 'image/webp')
 
 
@@ -769,15 +767,6 @@ def first_param(qs, key):
 
 def oracle_response(ctx, name, res, rep, req_size, base, skeletons, appdocs, recheck=None):
     sig = 'service=%s,' % name.split('.')[0]
-    if 'headers' in res and isinstance(res['headers'], list):
-        # C18-c: the in-image exception handlers declare the raw FORMAT parameter as Content-type
-        fmt = first_param(rep['QUERY_STRING'], 'format')
-        exc = first_param(rep['QUERY_STRING'], 'exceptions') or ''
-        cts = [h[1] for h in res['headers'] if isinstance(h, tuple) and len(h) == 2 and str(h[0]).lower() == 'content-type']
-        if fmt is not None and cts == [fmt] and fmt.lower() not in VALID_IMAGE_TYPES and \
-                ('image' in exc.lower() or 'blank' in exc.lower()) and b''.join(c for c in res['chunks'] if isinstance(c, bytes))[:4] in (b'\x89PNG', b'GIF8', b'\xff\xd8\xff\xe0', b'\xff\xd8\xff\xdb'):
-            ctx.fail(INIMAGE_CT, 'in-image exception declares the unvalidated FORMAT parameter %r as Content-type of an image body' % fmt, rep)
-            return 'image'
     if 'raised' in res:
         ctx.fail(sig + 'wsgi-raised', 'the WSGI application raised %s' % res['raised'], rep)
         return 'raised'
@@ -886,16 +875,6 @@ def oracle_response(ctx, name, res, rep, req_size, base, skeletons, appdocs, rec
         else:
             prob = xml_document_problem(body, text)
             if prob:
-                hostile = {h: v for h, v in rep['headers'].items() if h in HOST_HEADERS and re.search(r'[<>&"\']', v)}
-                if hostile and recheck is not None:
-                    # differential: the same request with the markup characters removed from the host / proto headers
-                    res2 = recheck({h: re.sub(r'[<>&"\']', '', v) for h, v in hostile.items()})
-                    if 'chunks' in res2:
-                        body2 = b''.join(res2['chunks'])
-                        if xml_document_problem(body2, body2.decode('utf-8', 'replace')) is None:
-                            ctx.fail(HOST_MARKUP, 'Host / X-Forwarded-Host / X-Forwarded-Proto is copied unescaped into an XML '
-                                     'document (%s): %s' % (name, prob[1]), rep)
-                            return kind
                 ctx.fail(sig + prob[0], prob[1], rep)
                 return kind
     elif 'html' in ct:
@@ -1035,7 +1014,7 @@ def part_app(ctx, skeletons):
     ctx.count('app:distinct-exception-documents', len(terms))
     ctx.corr_check(
         'appdoc', 'Escape Gen_exc_templates', 'list piece * list Z * option (list Z) * option (list Z) * list Z', terms,
-        "fun c => let '(t, msg, code, loc, doc) := c in str_eqb (gen_exception_doc t msg code loc) doc",
+        "fun c => let '(t, msg, code, loc, doc) := c in str_eqb (exception_doc t msg code loc) doc",
         lambda i: descr[i], shard=150)
 
 
